@@ -271,7 +271,7 @@ impl Model for M {
                     let peer_base = s.bases.get(&(!is_a, slot, k.fingerprint)).cloned();
                     let off = |x: &[u8; 12]| -> i128 {
                         let v = util::be96_to_u128(x);
-                        if v < (1 << 32) {
+                        if v < 2 {
                             -1 - v as i128
                         } else {
                             match peer_base {
@@ -311,8 +311,7 @@ impl Model for M {
                 ctr.wrapping_sub(base)
             ));
         }
-        // order inside the pool is irrelevant (any datagram can be delivered at any time)
-        items.sort();
+        // the order of the pool is part of the state: overflow evicts the oldest datagram
         out.push_str(&items.join(","));
         out.into_bytes()
     }
@@ -391,12 +390,12 @@ impl Model for M {
 
 fn variants(tier: Tier) -> Vec<(String, M, usize)> {
     let mut v = vec![];
-    let depth = tier.pick(7, 10);
+    let depth = tier.pick(7, 12);
     v.push(("rotation_aes128_a".to_string(), M { algos: vec!["aes128"], a_wins: true, pool_cap: 4 }, depth));
     v.push(("rotation_aes128_b".to_string(), M { algos: vec!["aes128"], a_wins: false, pool_cap: 4 }, depth - 1));
     if tier == Tier::Thorough {
-        v.push(("rotation_aes256_a".to_string(), M { algos: vec!["aes256"], a_wins: true, pool_cap: 4 }, 8));
-        v.push(("rotation_chacha20_b".to_string(), M { algos: vec!["chacha20"], a_wins: false, pool_cap: 4 }, 8));
+        v.push(("rotation_aes256_a".to_string(), M { algos: vec!["aes256"], a_wins: true, pool_cap: 4 }, 9));
+        v.push(("rotation_chacha20_b".to_string(), M { algos: vec!["chacha20"], a_wins: false, pool_cap: 4 }, 9));
     } else {
         v.push(("rotation_chacha20_a".to_string(), M { algos: vec!["chacha20"], a_wins: true, pool_cap: 4 }, 5));
     }
@@ -412,7 +411,7 @@ pub fn run(ctx: &Ctx) {
             ExploreOpts { max_depth: depth, wall_cap: Duration::from_secs(ctx.tier.pick(40, 1500)), state_cap: ctx.tier.pick(300_000, 5_000_000), dedup: true },
         );
         if i == 0 {
-            explore::audit_dedup(ctx, &fam, &m, &res, ctx.tier.pick(4, 5), Duration::from_secs(ctx.tier.pick(20, 300)));
+            explore::audit_dedup(ctx, &fam, &m, &res, ctx.tier.pick(5, 6), Duration::from_secs(ctx.tier.pick(30, 600)));
         }
     }
     ctx.assume("two parties; pool of at most 4 in-flight rotation datagrams (when full the oldest is lost, which is a legal network behaviour; occurrences are visible in the outcome classes)");
